@@ -372,6 +372,32 @@ func init() {
 			}
 			return Value{K: KSlice, R: &SliceV{S: []Value{{K: KOpaque, R: &OpaqueBytes{A: at, Tag: "mh"}}}}}, true
 		},
+		// identifiers handed out by the store are CIDv1 / dag-cbor / sha2-256 (as the native identifier pool is)
+		"(github.com/ipfs/go-cid.Cid).Version": func(in *Interp, fr *Frame, a []Value) (Value, bool) {
+			if _, ok := cidAtom(a[0]); !ok {
+				return declined()
+			}
+			return mkInt(1, 64), true
+		},
+		"(github.com/ipfs/go-cid.Cid).Type": func(in *Interp, fr *Frame, a []Value) (Value, bool) {
+			if _, ok := cidAtom(a[0]); !ok {
+				return declined()
+			}
+			return mkInt(0x71, 64), true
+		},
+		"(github.com/ipfs/go-cid.Cid).ByteLen": func(in *Interp, fr *Frame, a []Value) (Value, bool) {
+			if _, ok := cidAtom(a[0]); !ok {
+				return declined()
+			}
+			return mkInt(36, 64), true
+		},
+		"(github.com/ipfs/go-cid.Cid).Prefix": func(in *Interp, fr *Frame, a []Value) (Value, bool) {
+			if _, ok := cidAtom(a[0]); !ok {
+				return declined()
+			}
+			// Prefix{Version, Codec, MhType uint64; MhLength int}
+			return Value{K: KStruct, R: []Value{mkInt(1, 64), mkInt(0x71, 64), mkInt(0x12, 64), mkInt(32, 64)}}, true
+		},
 		"(github.com/ipfs/go-cid.Cid).KeyString": func(in *Interp, fr *Frame, a []Value) (Value, bool) {
 			return a[0].R.([]Value)[0], true
 		},
